@@ -544,7 +544,7 @@ func main() {
 		return
 	}
 	rep = report.New("C03", tier, "model_checking")
-	rep.Rule = "E1: catalogue of valid polygons on a 12x12 integer grid (7 shells x all valid subsets of <=2 disjoint holes out of 7) under the FULL orbit of per-ring reversal x start rotation x closed/unclosed spelling (polygons), multi-polygons of 1-3 disjoint members with every subset of <=2(3) rings varied over their full orbit plus whole-geometry reversal; Area for every spelling, Polygon.Centroid/op.Centroid/op.Area on alternately wound spellings, MultiPolygon.Centroid on every closed spelling; all line strings of <=4 points over {0..2}^2 x 49 half-integer query points for Length/Distance/op.Length; Point.Buffer for radius {0,.5,1,1e6} x segments 3..16 x 3 centres. every fifth spelling again under 3 affine maps with non-representable coefficients and under the integer translation by (1000000007, 123456789) (areas only) (area scales by |det|, the centroid maps affinely; relative tolerance 1e-9). A 64-gon and a 100-gon with a 33-gon hole under their full orbits. The full orbit of every fifth polygon again on one value rewritten in place (history), and every unclosed / every 8th spelling also cut from one flat vertex buffer (layout). Oracle: exact integer shoelace / centroid sums, exact squared distances. Non-trivial = spellings that are not the canonical alternately wound closed one."
+	rep.Rule = "E1: catalogue of valid polygons on a 12x12 integer grid (7 shells x all valid subsets of <=2 disjoint holes out of 7) under the FULL orbit of per-ring reversal x start rotation x closed/unclosed spelling (polygons), multi-polygons of 1-3 disjoint members with every subset of <=2(3) rings varied over their full orbit plus whole-geometry reversal; Area for every spelling, Polygon.Centroid/op.Centroid/op.Area on alternately wound spellings, MultiPolygon.Centroid on every closed spelling; all line strings of <=4 points over {0..2}^2 x 49 half-integer query points for Length/Distance/op.Length; lines over five far-apart points x query points 1e-6..1e-1 beside their segments; Point.Buffer for radius {0,.5,1,1e6} x segments 3..16 x 3 centres. every fifth spelling again under 3 affine maps with non-representable coefficients and under the integer translation by (1000000007, 123456789) (areas only) (area scales by |det|, the centroid maps affinely; relative tolerance 1e-9). A 64-gon and a 100-gon with a 33-gon hole under their full orbits. The full orbit of every fifth polygon again on one value rewritten in place (history), and every unclosed / every 8th spelling also cut from one flat vertex buffer (layout). Oracle: exact integer shoelace / centroid sums, exact squared distances. Non-trivial = spellings that are not the canonical alternately wound closed one."
 	cat := catalogue()
 	rep.Set("catalogue_polygons", len(cat))
 	maxVary := 2
@@ -709,6 +709,49 @@ func main() {
 		})
 	}
 	rep.Set("line_strings", nl)
+
+	// points very close to long segments: every line of 2 and 3 vertices over
+	// five far-apart points x query points 1e-1 .. 1e-6 beside each segment (and
+	// beyond its ends); the cross-product form of the distance is well
+	// conditioned there, a difference of squares is not
+	{
+		far := []geom.Point{{X: 0, Y: 0}, {X: 600, Y: 0}, {X: 613, Y: 301}, {X: -20, Y: 777}, {X: 1044.5, Y: -3.25}}
+		var lines []geom.LineString
+		for a := range far {
+			for b := range far {
+				if a == b {
+					continue
+				}
+				lines = append(lines, geom.LineString{far[a], far[b]})
+				for c := range far {
+					if c != a && c != b {
+						lines = append(lines, geom.LineString{far[a], far[b], far[c]})
+					}
+				}
+			}
+		}
+		for _, ls := range lines {
+			for i := 0; i+1 < len(ls); i++ {
+				a, b := ls[i], ls[i+1]
+				l := math.Hypot(b.X-a.X, b.Y-a.Y)
+				ux, uy := (b.X-a.X)/l, (b.Y-a.Y)/l
+				for _, t := range []float64{-0.1, 0.003, 0.37, 0.5, 0.91, 1.02} {
+					for _, off := range []float64{0, 1e-6, -1e-4, 1e-3, -1e-1} {
+						q := geom.Point{X: a.X + t*l*ux - off*uy, Y: a.Y + t*l*uy + off*ux}
+						want := math.Inf(1)
+						for k := 0; k+1 < len(ls); k++ {
+							want = math.Min(want, segDist(q, ls[k], ls[k+1]))
+						}
+						got := ls.Distance(q)
+						nEval++
+						if !(math.Abs(got-want) <= 1e-9*want+1e-11) {
+							rep.Violation("LineString.Distance|wrong|near-long-segment", map[string]interface{}{"line": fmt.Sprint(ls), "p": fmt.Sprint(q), "got": got, "want": want})
+						}
+					}
+				}
+			}
+		}
+	}
 
 	// buffers
 	for _, c := range []geom.Point{{X: 0, Y: 0}, {X: 3.25, Y: -7.5}, {X: 1e6, Y: 1e-3}} {
